@@ -16,38 +16,18 @@ import re
 from checklib import sh, parse_kv_line, REPO, CACHE
 
 
-def syntactic_ties(ctx):
-    h = open(REPO + "/lib/src/subtree.h").read()
-    # the size fields of every platform variant of `struct SubtreeInlineData` come from this macro
-    m = re.search(r"#define SUBTREE_SIZE((?:.*\\\n)*.*\n)", h)
-    body = m.group(1).replace("\\", " ") if m else ""
-    m = m if (m and len(re.findall(r"struct SubtreeInlineData \{[^}]*SUBTREE_SIZE[^}]*\};", h)) >= 1) else None
-    want = {"padding_columns": None, "padding_rows": 4, "lookahead_bytes": 4, "padding_bytes": None, "size_bytes": None}
-    ok, detail = bool(m), []
-    for f, bits in want.items():
-        mm = re.search(r"uint8_t\s+%s\s*(?::\s*(\d+))?\s*;" % f, body)
-        if not mm:
-            ok = False
-            detail.append("missing uint8_t %s" % f)
-        elif bits is None and mm.group(1) is not None:
-            ok = False
-            detail.append("%s is now a %s-bit field" % (f, mm.group(1)))
-        elif bits is not None and (mm.group(1) is None or int(mm.group(1)) != bits):
-            ok = False
-            detail.append("%s width %s != %d" % (f, mm.group(1), bits))
-    ctx.oblige("tie:SubtreeInlineData-widths=8/4/4/8/8", ok, "; ".join(detail))
-    st = open(REPO + "/lib/src/stack.c").read()
-    i = st.find("static void stack_node_add_link(")
-    fn = st[i:st.find("\n}\n", i)] if i >= 0 else ""
-    guard = fn.find("if (self->link_count == MAX_LINK_COUNT) return;")
-    store = fn.find("self->links[self->link_count++] = link;")
-    ctx.oblige("tie:add_link-guard-before-store", 0 <= guard < store and fn.count("link_count++") == 1, fn[-300:] if guard < 0 else "")
-    ctx.oblige("tie:links-array-has-MAX_LINK_COUNT-slots", bool(re.search(r"StackLink\s+links\[MAX_LINK_COUNT\];", st)), "")
-    sub = open(REPO + "/lib/src/subtree.c").read()
-    ctx.oblige("tie:new_leaf-inlines-only-if-can_inline",
-               bool(re.search(r"symbol <= UINT8_MAX &&\s*!has_external_tokens &&\s*ts_subtree_can_inline\(padding, size, lookahead_bytes\)", sub)), "")
-    ctx.oblige("tie:edit-keeps-inline-only-if-can_inline",
-               bool(re.search(r"if \(result\.data\.is_inline\) \{\s*if \(ts_subtree_can_inline\(padding, size, lookahead_bytes\)\)", sub)), "")
+def measured_ties(ctx, kinds, bits_ok):
+    """The facts of the headers the theorems rest on (bit widths of the inline size fields, slot count
+    of StackNode.links, which leaves may be inlined) are MEASURED on the real code through the unity
+    build (`bits` protocol of cunit_c07: an all-ones Subtree read back through the runtime's accessors,
+    sizeof of the link array, new_leaf with a 9-bit symbol / with external tokens) and compared in the
+    Lean driver with `TsVerif.C07.widths` and the generated MAX_LINK_COUNT.  Spelling of the headers
+    (macro names, `: 4` vs `: (8 / 2)`, field order) is irrelevant.  The guard of stack_node_add_link and
+    the inline decisions of new_leaf / edit are tied behaviourally (al / inl protocols, dump judge)."""
+    ctx.oblige("tie:inline-field-widths+link-slots+inline-conditions-measured=model", kinds.get("bits", 0) >= 1 and bits_ok,
+               "bits probe: %d results, ok=%s" % (kinds.get("bits", 0), bits_ok))
+    for k in ("al", "inl"):
+        ctx.oblige("tie:%s-protocol-exercised" % k, kinds.get(k, 0) >= 1, "no %s correspondence results" % k)
 
 
 def sanitizer_search(ctx, langdirs):
@@ -109,7 +89,6 @@ def run(ctx):
     ]
     ctx.regen()
     ctx.prove(["TsVerif.C07.Props"], "TsVerif/C07/Audit.lean")
-    syntactic_ties(ctx)
     driver = ctx.build_driver("tsv-c07")
     explorer = ctx.cargo_bin("c07")
     cunit = ctx.cunit("cunit_c07")
@@ -160,6 +139,7 @@ def run(ctx):
     hk = {}
     corr_cmp = corr_bad = judge_bad = 0
     allocs = 0
+    bits_ok = True
     for line in out.split("\n"):
         if not line.strip():
             continue
@@ -194,10 +174,14 @@ def run(ctx):
             corr_cmp += 1
             if kv["corr"] != "ok":
                 corr_bad += 1
+                if kv["kind"] == "bits":
+                    bits_ok = False
                 jf.violation("corr", "model and real code disagree (%s): %s" % (kv["kind"], kv["corr"]),
                               dict(payload, correspondence="TsVerif.C07.Arr / generated ts_subtree_can_inline vs lib/src/array.h, subtree.c"),
                               fingerprint={"corr": "diff", "kind": kv["kind"]}, found_input=False)
     ctx.oblige("corr:array-model+can_inline=real", corr_bad == 0, "%d disagreements" % corr_bad)
+    if not ctx.replay:
+        measured_ties(ctx, kinds, bits_ok)
     if ctx.tier == "thorough" and not ctx.replay:
         langdirs = {}
         for lang in ("arith", "jsonish", "lst"):
